@@ -1,13 +1,16 @@
 pub mod c01;
+pub mod c02;
+pub mod c04;
 pub mod c06;
 pub mod c07;
 pub mod c08;
 pub mod c10;
+pub mod c12;
 
 use crate::fw::Prop;
 
 pub fn all() -> Vec<Box<dyn Prop>> {
-    vec![Box::new(c01::C01), Box::new(c06::C06), Box::new(c07::C07), Box::new(c08::C08), Box::new(c10::C10)]
+    vec![Box::new(c01::C01), Box::new(c02::C02), Box::new(c04::C04), Box::new(c06::C06), Box::new(c07::C07), Box::new(c08::C08), Box::new(c10::C10), Box::new(c12::C12)]
 }
 
 pub fn find(id: &str) -> Option<Box<dyn Prop>> {
